@@ -5,7 +5,8 @@ From ApolloVerif Require Import Base.Chars Lex.Item Lex.Spec Lex.Fun Lex.LexProo
   Parse.Keywords Parse.Grammar Parse.Generic Parse.Atoms Parse.Entry Parse.LosslessDefs Parse.Lossless
   Parse.TrackerInst Parse.SilentInst Parse.EntryEnd Parse.Terminates Parse.Compose Parse.RefGrammar Parse.RefLib
   Parse.RefLenient Parse.RefLenientProofs Parse.RefLinkBase Parse.RefLinkLoops Parse.RefLinkType Parse.RefLinkValue
-  Parse.RefLinkExec Parse.RefLinkSel Parse.RefLinkEntry Parse.RefLinkLex.
+  Parse.RefLinkExec Parse.RefLinkSel Parse.RefLinkEntry Parse.RefLinkLex Parse.RefLinkDefs Parse.RefLinkTS
+  Parse.RefLinkDoc.
 
 (* what the link assumes of an item list; every lex_all s satisfies it *)
 Definition rl_items_ok (items : list item) : Prop := Forall rl_item_ok items /\ eof_terminated items.
@@ -133,3 +134,81 @@ Theorem rl_field_set_refuted :
   rg_significant (lex_all rl_field_set_witness) = Some rl_field_set_witness_tokens /\
   rg_field_set rl_field_set_witness_tokens = RgNo /\ rgl_known_field_set rl_field_set_witness_tokens = true.
 Proof. repeat split; vm_compute; reflexivity. Qed.
+
+(* ================================================================== C05: Parser::parse *)
+Lemma document_CJ orig fuel : specR (CJ orig) (g_document fuel).
+Proof. apply gg_document; [apply CJ_ok|apply (a_assert _ (CJ_atoms orig))]. Qed.
+
+Lemma rgl_document_some ts ds :
+  rgl_document rgl_parser ts = Some ds <-> rg_document_r (rgl_definition rgl_parser) ts = RgOk ds.
+Proof.
+  unfold rgl_document, rg_to_option. destruct (rg_document_r _ ts); split; intros H; try discriminate; congruence.
+Qed.
+
+(* no error reported  ->  no lexical error, and the relaxed grammar accepts the significant tokens *)
+Theorem rl_document_exact_items dbg rl items r : rl_items_ok items ->
+  parse_document_items dbg rl items = POk r -> pr_errors r = [] ->
+  exists ts ds, rg_significant items = Some ts /\ rgl_document rgl_parser ts = Some ds.
+Proof.
+  intros [Hok Heof] E He. destruct (rl_run_result _ _ _ _ _ _ E) as (u & s' & Eg & Herr).
+  rewrite Herr in He. apply (proj1 (rl_rev_nil _)) in He.
+  pose proof (document_end _ _ _ _ Eg) as [Hend _].
+  pose proof (rl_clean_run_tokens _ _ _ _ _ _ Heof (document_CJ items _) Eg Hend He) as Htok.
+  pose proof (rl_stream_of _ Htok Hok Heof) as Hstr.
+  destruct (proj1 (rl_document_entry _ _ _ _ _ _ Hstr Eg) He) as (ds & Hds).
+  exists (rl_sig items), ds. split; [apply rl_stream_significant; exact Hstr|]. apply rgl_document_some. exact Hds.
+Qed.
+
+(* the relaxed grammar accepts  ->  no error reported (recursion limit above the number of `{`, `[`, `:`) *)
+Theorem rl_document_accepts_items dbg rl items r ts ds : rl_items_ok items ->
+  parse_document_items dbg rl items = POk r -> rg_significant items = Some ts ->
+  rgl_document rgl_parser ts = Some ds -> rl_weight ts < rl -> pr_errors r = [].
+Proof.
+  intros Hok E Hsig Hq Hw. destruct (rl_run_result _ _ _ _ _ _ E) as (u & s' & Eg & Herr). rewrite Herr.
+  apply rl_rev_nil. destruct (rl_stream_of_significant _ _ Hok Hsig) as [Hstr <-].
+  apply rgl_document_some in Hq. exact (proj2 (rl_document_entry _ _ _ _ _ _ Hstr Eg) Hw ds Hq).
+Qed.
+
+(* ---- on source strings *)
+Theorem rl_document_exact_source : forall dbg rl s r,
+  parse_document_items dbg rl (lex_all s) = POk r -> pr_errors r = [] ->
+  exists ts ds, rg_significant (lex_all s) = Some ts /\ rgl_document rgl_parser ts = Some ds.
+Proof. intros dbg rl s r. apply rl_document_exact_items. apply rl_lex_all_items_ok. Qed.
+
+Theorem rl_document_accepts_source : forall dbg rl s r ts ds,
+  parse_document_items dbg rl (lex_all s) = POk r -> rg_significant (lex_all s) = Some ts ->
+  rgl_document rgl_parser ts = Some ds -> rl_weight ts < rl -> pr_errors r = [].
+Proof. intros dbg rl s r ts ds. apply rl_document_accepts_items. apply rl_lex_all_items_ok. Qed.
+
+(* a lexical error is always reported *)
+Theorem rl_document_lexical_error : forall dbg rl s r,
+  parse_document_items dbg rl (lex_all s) = POk r -> rg_significant (lex_all s) = None -> pr_errors r <> [].
+Proof.
+  intros dbg rl s r E Hsig He. destruct (rl_document_exact_source dbg rl s r E He) as (ts & ds & H & _). congruence.
+Qed.
+
+(* outside the class of the known leniencies: the parser's verdict is the reference's *)
+Theorem rl_document_accept_iff : forall dbg rl s r ts,
+  parse_document_items dbg rl (lex_all s) = POk r ->
+  rg_significant (lex_all s) = Some ts -> rgl_known_document ts = false -> rl_weight ts < rl ->
+  (pr_errors r = [] <-> exists ds, rg_document ts = Some ds).
+Proof.
+  intros dbg rl s r ts E Hsig Hk Hw. split.
+  - intros He. destruct (rl_document_exact_source dbg rl s r E He) as (ts' & ds & Hs' & Hq).
+    rewrite Hsig in Hs'. injection Hs' as <-. unfold rgl_known_document in Hk. rewrite Hq in Hk.
+    destruct (rg_document ts) as [ds0|]; [eauto|discriminate].
+  - intros (ds & Hq). eapply rl_document_accepts_source; eauto. apply rgl_sub_document. exact Hq.
+Qed.
+
+(* the reference never accepts what the parser reports: whatever the class *)
+Theorem rl_document_reference_accepted : forall dbg rl s r ts ds,
+  parse_document_items dbg rl (lex_all s) = POk r ->
+  rg_significant (lex_all s) = Some ts -> rg_document ts = Some ds -> rl_weight ts < rl -> pr_errors r = [].
+Proof.
+  intros dbg rl s r ts ds E Hsig Hq Hw. eapply rl_document_accepts_source; eauto. apply rgl_sub_document. exact Hq.
+Qed.
+
+(* the definition list: the relaxed grammar (= the parser's acceptance) and the reference return the same one *)
+Theorem rl_document_definitions_agree : forall ts ds ds',
+  rg_document ts = Some ds -> rgl_document rgl_parser ts = Some ds' -> ds' = ds.
+Proof. intros ts ds ds' H1 H2. rewrite (rgl_sub_document rgl_parser _ _ H1) in H2. congruence. Qed.
